@@ -14,11 +14,14 @@
    queue requests and hand-overs that every callback is proved to keep consistent): per destination,
        entries handed over for transmission so far ++ entries pending in the open collector = entries queued so far
    - nothing lost, duplicated, reordered or moved to another destination; a collector's timeout runs at most once.
+   The time clause over whole runs as well (Proofs/WorldLogTime.v): every hand-over in the history took exactly the
+   entries queued for its destination since the previous hand-over, each queued at most one collection timeout earlier
+   (intime), and what is still pending has a timeout due at most one collection timeout after its queue time.
    NOT proved as ONE statement: that the BYTES in the out trace decode to the handed-over entries (that link is C02 /
-   C08_id_and_flag_on_the_wire per transmission) and the per-entry deadline over the history; both are decided on every
-   run by the correspondence and the extracted check_C15. *)
+   C08_id_and_flag_on_the_wire per transmission); decided on every run by the correspondence and the extracted
+   check_C15. *)
 From PS Require Import Lib.Base Generated.Consts Model.SdTypes Model.Config Model.Session Model.StackTypes Model.Stack
-  Model.StackIO Spec.AnnSpec Proofs.QueueProofs Proofs.WorldInv Proofs.WorldTime Proofs.WorldDone Proofs.WorldDeadline Proofs.WorldLog.
+  Model.StackIO Spec.AnnSpec Proofs.QueueProofs Proofs.WorldInv Proofs.WorldTime Proofs.WorldDone Proofs.WorldDeadline Proofs.WorldLog Proofs.WorldLogTime.
 
 Theorem C15_conservation : forall ops s d, QInv s ->
   sent_for d (snd (q_run s ops)) ++ pending_for (fst (q_run s ops)) d = pending_for s d ++ queued_for d ops.
@@ -132,6 +135,24 @@ Theorem C15_hand_over_is_transmitted : forall e es d w,
               /\ fst (assign_outgoing (sess w) d) = (f, i).
 Proof. exact send_sd_log. Qed.
 
+(* the time clause over whole runs of the stack: every reachable state of every scenario, whatever the schedule *)
+Theorem C15_every_hand_over_in_time_on_the_stack : forall s sc, d_scenario s = Some sc ->
+  let w := fst (run_scenario sc) in intime (t_collect (cfg w)) (glog w) = true.
+Proof. exact reachable_flush_in_time. Qed.
+Theorem C15_pending_entries_have_a_deadline_on_the_stack : forall s sc, d_scenario s = Some sc ->
+  let w := fst (run_scenario sc) in
+  forall d c co, open_collector w d = Some (c, co) ->
+    length (ptimes d (glog w)) = length (co_data co)
+    /\ forall when, In (when, c, HCollector c) (timers w) -> forall tq, In tq (ptimes d (glog w)) -> when <= tq + t_collect (cfg w).
+Proof. exact reachable_pending_deadlines. Qed.
+(* intime distinguishes: on time / late / a hand-over that does not take everything pending *)
+Example C15_intime_example :
+  let e := mkEntry ET_OfferService 1 1 1 3 0 [] [] None in
+  intime 5 [(12, GFlush None [e; e]); (9, GQueue e None); (7, GQueue e None)] = true
+  /\ intime 5 [(13, GFlush None [e; e]); (9, GQueue e None); (7, GQueue e None)] = false
+  /\ intime 5 [(12, GFlush None [e]); (9, GQueue e None); (7, GQueue e None)] = false.
+Proof. exact intime_example. Qed.
+
 (* non-vacuity of the checker's domain restriction: an ordinary offer entry is encodable, one with a 17-bit instance id is not *)
 Example C15_unencodable_examples :
   unencodable (mkEntry ET_OfferService 4369 1 1 3 7 [] [] None) = false
@@ -140,6 +161,8 @@ Proof. vm_compute. split; reflexivity. Qed.
 
 Print Assumptions C15_conservation.
 Print Assumptions C15_conservation_on_the_stack.
+Print Assumptions C15_every_hand_over_in_time_on_the_stack.
+Print Assumptions C15_pending_entries_have_a_deadline_on_the_stack.
 Print Assumptions C15_exactly_once_in_order_on_the_stack.
 Print Assumptions C15_history_invariant_kept_by_queue_send.
 Print Assumptions C15_history_invariant_kept_by_a_collector_timeout.
